@@ -80,11 +80,14 @@ func (fr *frame) execInstr(in ssa.Instruction, st *State, reach string, b *ssa.B
 		cont := pt.Underlying().(*types.Pointer).Elem()
 		stt := cont.Underlying().(*types.Struct)
 		ft := stt.Field(x.Field).Type()
-		nv := &Val{lv: fr.ptrLV(pv, pt).extendField(x.Field, cont, ft)}
+		nv := &Val{lv: fr.ptrLV(pv, pt).extendField(x.Field, cont, ft), frozenIn: pv.frozenIn}
 		if n, ok := cont.(*types.Named); ok && n.Obj().Pkg() != nil && !fr.pure {
 			mi := u.eng.mapInv["F:"+n.Obj().Pkg().Name()+"."+n.Obj().Name()+"."+stt.Field(x.Field).Name()]
 			if strings.Contains(mi, "nonnil") {
 				nv.mapNonNil = true
+			}
+			if strings.Contains(mi, "frozen") {
+				nv.mapFrozen = true
 			}
 			if strings.Contains(mi, "distinct") {
 				nv.mapDistinct = true
@@ -169,6 +172,22 @@ func (fr *frame) execInstr(in ssa.Instruction, st *State, reach string, b *ssa.B
 				}
 			}
 			return
+		}
+		if av.frozenIn != "" && !fr.pure {
+			// the address was read out of a frozen registry in this function: the store is legal only if the key was absent
+			u.oblige(fr.obName("mapinv-frozen-entry", fr.describe(x.Addr, 0)), "mapinv", []string{"C20", "C19"}, reach, not(av.frozenIn), fr.pos(x.Pos()),
+				"registry invariant: a published registry entry is never modified in place")
+		} else if mt, ok := u.frozenHeaps[lv.name]; ok && lv.kind == lvHeap {
+			// "frozen" registry: an object is never written once a registry entry points to it (readers keep using an
+			// entry after releasing the registry lock)
+			fr.flushMapWF(st)
+			pn, ps, vn, vs := fr.mapHeaps(mt)
+			hp, hv := u.heapGet(st, pn, ps), u.heapGet(st, vn, vs)
+			m, k := u.fresh("m"), u.fresh("k")
+			u.oblige(fr.obName("mapinv-frozen", fr.describe(x.Addr, 0)), "mapinv", []string{"C20", "C19"}, reach,
+				fmt.Sprintf("(forall ((%s Int) (%s %s)) (=> (select (select %s %s) %s) (not (= (select (select %s %s) %s) %s))))",
+					m, k, u.sorts.sortOf(mt.Key()), hp, m, k, hv, m, k, lv.ref), fr.pos(x.Pos()),
+				"registry invariant: a published registry entry is never modified in place")
 		}
 		nst := st.clone()
 		u.write(nst, lv, fr.valTerm(vv, nst))
@@ -372,10 +391,14 @@ func (fr *frame) execLookup(x *ssa.Lookup, st *State, reach string) *Val {
 		if g := globalMapOf(x.X); ((g != "" && u.eng.mapInv[g] == "nonnil") || xv.mapNonNil) && !fr.pure {
 			u.assume(and(reach, present), nonNil(xt.Elem(), val))
 		}
-		if x.CommaOk {
-			return &Val{tuple: []*Val{{t: val}, {t: present}}}
+		fz := ""
+		if xv.mapFrozen && !fr.pure {
+			fz = present
 		}
-		return &Val{t: val}
+		if x.CommaOk {
+			return &Val{tuple: []*Val{{t: val, frozenIn: fz}, {t: present}}}
+		}
+		return &Val{t: val, frozenIn: fz}
 	case *types.Basic:
 		iv := fr.valOf(x.Index).t
 		if !fr.pure {
@@ -409,6 +432,7 @@ func (fr *frame) execUnOp(x *ssa.UnOp, st *State, reach string) {
 		}
 		nv.mapNonNil = v.mapNonNil
 		nv.mapDistinct = v.mapDistinct
+		nv.mapFrozen = v.mapFrozen
 		fr.vals[x] = nv
 	case token.NOT:
 		fr.vals[x] = &Val{t: not(v.t)}
